@@ -11,7 +11,7 @@ SCALE=${1:-0.1}
 BIN=$(dirname $(rustup which --toolchain nightly rustc))/../lib/rustlib/x86_64-unknown-linux-gnu/bin
 OUT=$V/run/cov; rm -rf $OUT; mkdir -p $OUT/prof $OUT/vd $V/coverage
 cp known_findings.json $OUT/vd/
-( cd harness && CARGO_NET_OFFLINE=true RUSTFLAGS="-Cinstrument-coverage" cargo +nightly build --offline --profile checked --target-dir target/cov 2>&1 | tail -2 )
+( cd harness && LLVM_PROFILE_FILE="$OUT/prof/build-%p-%m.profraw" CARGO_NET_OFFLINE=true RUSTFLAGS="-Cinstrument-coverage" cargo +nightly build --offline --profile checked --target-dir target/cov 2>&1 | tail -2 )
 T=harness/target/cov/checked/tuverif
 for p in $(seq -w 1 20); do
   LLVM_PROFILE_FILE="$OUT/prof/C$p-%p-%m.profraw" TUVERIF_DIR=$OUT/vd TUVERIF_SCALE=$SCALE TUVERIF_NO_EXTRA=1 TUVERIF_HANG_FACTOR=10 \
